@@ -14,7 +14,8 @@ RULE = ("random runs over the option space (noise, averaging, scaling, regularis
         "(hook on the once-per-iteration model fit) for the incumbent and the saved slot: named point exists in the history, x "
         "matches the recorded x, residual is bit-identical to the recorded vector (mean of samples under averaging), "
         "obj == sum(resid^2)+h(x). Non-trivial/distinct = (exit site, restart mode, averaging?) triples x configuration hash "
-        "of runs whose end-of-run oracle ran")
+        "of runs whose end-of-run oracle ran"
+        ' Second session: a fifth of the un-averaged references un-logged (evaluation k = point k); batch initialisation with a residual function that returns one re-used buffer; calling forms sampled.')
 ASSUMPTIONS = ["point numbers are those dfols reports in its log line; x tolerance 1e-12*(1+|x|+|bounds|) (2*sqrt(p*tol) with "
                "projections, where the stored point is re-projected)",
                "residual vectors of distinct evaluations are bit-different (checked per run; ambiguous runs are counted)"]
